@@ -6,7 +6,7 @@ import native as nat
 EXPLANATION = ('C09: inductive step over the cache (jLast, correlated_calls): real Locate is bracket-correct from every cache state, agrees with the fresh-object result off the knots, '
                'leaves a valid cache; Interpolate/Derivative/Integrate/Local_* return structurally identical terms from any cache state and from the fresh state (=> bit-identical doubles); '
                'Set_Prefactor/Multiply touch only the prefactor; copy-assignment copies every field.')
-BOUNDS = {'quick': {'N_locate': list(range(3, 13)), 'N_queries': [3, 4, 5], 'grid2d': [3, 3]}, 'thorough': {'N_locate': list(range(3, 33)), 'N_queries': [3, 4, 5, 6, 7], 'grid2d': [4, 4]}}
+BOUNDS = {'quick': {'N_locate': list(range(3, 13)), 'N_queries': [3, 4, 5], 'grid2d': [3, 3]}, 'thorough': {'N_locate': list(range(3, 25)), 'N_queries': [3, 4, 5, 6, 7], 'grid2d': [4, 4]}}
 NOT_DECIDED = ['N beyond the bound', 'IEEE rounding inside the extrapolation-tolerance arithmetic (EA is exact; BP twin covers Locate for small N)']
 ASSUMPTIONS = ['doubles are exact reals (EA back end); bit-identity claims rest on structural identity of the result terms', 'cache states enumerated exhaustively: jLast in [0,N-2] x correlated_calls in {0,1}',
                'pre-state = any object satisfying: abscissae strictly increasing, domain = (x[0],x[N-1]); coefficients free']
